@@ -80,7 +80,7 @@ impl<R: VRead> LowMarkBufReader<R> {
 //@|        r is Ok ==> (r->Ok_0@.len() == 0 ==> old(self).unread().len() == 0), // O:fill.eof
 //@|        final(self).inner.never_fails() == old(self).inner.never_fails(),
 //@|        old(self).inner.never_fails() ==> r is Ok, // O:fill.no_spurious_error
-//@   sub R14 `let read = self.inner.read(&mut self.buf[self.cap..])?;` => `let vx_s: &mut [u8] = &mut *self.buf; let read = self.inner.read(&mut vx_s[self.cap..])?;`
+//@   sub R14 `let read = self.inner.read(&mut self.buf[self.cap..` => `let vx_s: &mut [u8] = &mut *self.buf; let read = self.inner.read(&mut vx_s[self.cap..`
 //@   hint before `let in_buf = self.cap - self.pos;`
 //@|    let ghost bf0 = self.buffered();
 //@   hint before `let vx_s: &mut [u8]`
